@@ -505,4 +505,53 @@ func session(out *hx.Writer, round int) {
 			queryComment(cr.combined[:L])
 		}
 	}
+	// a bug addressed by a prefix that names it alone is removed: it is that bug which goes, from git too, and from then on neither
+	// its id nor any prefix of it finds anything (also after the cache was opened anew)
+	victim := left[len(left)-1]
+	vid := victim.Id().String()
+	n := 1
+	for clash := true; clash; {
+		clash = false
+		for _, b := range left {
+			if b.Id() != victim.Id() && strings.HasPrefix(b.Id().String(), vid[:n]) {
+				clash = true
+			}
+		}
+		if clash {
+			n++
+		}
+	}
+	rerr := c.Bugs().Remove(vid[:n])
+	still, _ := r4.RefExist("refs/bugs/" + vid)
+	out.Put(map[string]interface{}{"ev": "RemovedByPrefix", "prefix": digits(vid[:n]), "refused": rerr != nil, "refleft": still})
+	hx.Must(c.Close())
+	r5, err := repository.OpenGoGitRepo(dir, "git-bug", nil)
+	hx.Must(err)
+	c, err = hx.OpenCache(r5)
+	hx.Must(err)
+	left = left[:len(left)-1]
+	for k := range bugIdx {
+		delete(bugIdx, k)
+	}
+	for k := range commentIdx {
+		delete(commentIdx, k)
+	}
+	bugPop, comments = nil, nil
+	for i, b := range left {
+		bugIdx[b.Id().String()] = i + 1
+		bugPop = append(bugPop, digits(b.Id().String()))
+	}
+	var crefs3 []cref
+	for i, b := range left {
+		for _, cm := range b.Compile().Comments {
+			comments = append(comments, comment{Bug: i + 1, Op: digits(cm.TargetId().String())})
+			crefs3 = append(crefs3, cref{combined: cm.CombinedId().String(), idx: len(comments)})
+			commentIdx[cm.CombinedId().String()] = len(comments)
+		}
+	}
+	out.Put(map[string]interface{}{"ev": "Pop", "bugs": bugPop, "idents": identPop, "comments": comments})
+	for _, cr := range crefs3 {
+		out.Put(map[string]interface{}{"ev": "Combined", "comment": cr.idx, "combined": digits(cr.combined)})
+	}
+	short(queryEntity, bugIds)
 }
